@@ -172,10 +172,12 @@ func (s *vfCmpSink) Write(p []byte) (int, error) {
 }
 
 type vf15Case struct {
-	Format string   `json:"format"`
-	Args   []string `json:"args"` // %#v renderings (documentation); ArgIdx is what replays
-	ArgIdx []int    `json:"arg_idx"`
-	TokIdx []int    `json:"tok_idx"`
+	Format    string   `json:"format"`
+	Args      []string `json:"args"` // %#v renderings (documentation); ArgIdx is what replays
+	ArgIdx    []int    `json:"arg_idx"`
+	TokIdx    []int    `json:"tok_idx"`
+	Early     bool     `json:"early,omitempty"` // formatted with no sink set (nil writer -> early ring buffer)
+	ViaPrintf bool     `json:"via_printf,omitempty"`
 }
 
 var (
@@ -230,11 +232,63 @@ func vf15RunOne(run *verifrt.Run, tokIdx, argIdx []int) {
 			class = "panic"
 			desc = fmt.Sprintf("Fprintf(%q, %s) panicked: %v", vfShort(f), strings.Join(as, ", "), pan)
 		}
-		run.Violate(class, fmt.Sprintf("%s %v %v", class, tokIdx, argIdx), desc, vf15Case{f, as, argIdx, tokIdx})
+		run.Violate(class, fmt.Sprintf("%s %v %v", class, tokIdx, argIdx), desc, vf15Case{Format: f, Args: as, ArgIdx: argIdx, TokIdx: tokIdx})
 		return
 	}
 	if len(tokIdx) <= 1 {
 		run.Distinct(want)
+	}
+}
+
+// vf15RunEarly formats through the destination Printf uses before a sink exists (a nil writer, redirected to the early
+// ring buffer): it must not panic, and what the ring hands to the first sink must be the reference output (compared
+// when it fits the ring; the ring's own retention rule is C16's subject).
+func vf15RunEarly(run *verifrt.Run, tokIdx, argIdx []int, viaPrintf bool) {
+	run.Case()
+	toks := make([]vfTok, len(tokIdx))
+	f := ""
+	for i, ti := range tokIdx {
+		toks[i] = vf15Toks[ti]
+		f += toks[i].String()
+	}
+	args := make([]interface{}, len(argIdx))
+	for i, ai := range argIdx {
+		args[i] = vf15Args[ai]
+	}
+	want := vfRefFmt(toks, args)
+	earlyPrintBuffer = ringBuffer{}
+	outputSink = nil
+	var pan interface{}
+	func() {
+		defer func() { pan = recover() }()
+		if viaPrintf {
+			Printf(f, args...)
+		} else {
+			Fprintf(nil, f, args...)
+		}
+	}()
+	sink := &vfCmpSink{want: want}
+	if pan == nil {
+		func() {
+			defer func() { pan = recover() }()
+			SetOutputSink(sink)
+		}()
+	}
+	outputSink = nil
+	earlyPrintBuffer = ringBuffer{}
+	fits := len(want) < ringBufferSize
+	if pan != nil || (fits && (sink.bad || sink.pos != len(want))) {
+		var as []string
+		for _, a := range args {
+			as = append(as, fmt.Sprintf("%#v", a))
+		}
+		class := "early-wrong-output"
+		desc := fmt.Sprintf("Printf(%q, %s) before a sink exists: the early buffer handed over %d bytes that differ from the reference at byte %d (expected %d: %q)", vfShort(f), strings.Join(as, ", "), sink.gotLen, sink.badAt, len(want), vfShort(want))
+		if pan != nil {
+			class = "early-panic"
+			desc = fmt.Sprintf("Printf(%q, %s) before a sink exists panicked: %v", vfShort(f), strings.Join(as, ", "), pan)
+		}
+		run.Violate(class, fmt.Sprintf("%s %v %v", class, tokIdx, argIdx), desc, vf15Case{Format: f, Args: as, ArgIdx: argIdx, TokIdx: tokIdx, Early: true, ViaPrintf: viaPrintf})
 	}
 }
 
@@ -254,7 +308,9 @@ func TestVerifC15(t *testing.T) {
 	vf15Init(run.Thorough())
 	var rp vf15Case
 	if run.Replaying(&rp) {
-		if rp.TokIdx != nil {
+		if rp.TokIdx != nil && rp.Early {
+			vf15RunEarly(run, rp.TokIdx, rp.ArgIdx, rp.ViaPrintf)
+		} else if rp.TokIdx != nil {
 			vf15RunOne(run, rp.TokIdx, rp.ArgIdx)
 		} else {
 			// an arbitrary-format / allocation case: replay by format text
@@ -284,6 +340,22 @@ func TestVerifC15(t *testing.T) {
 			vf15RunOne(run, []int{t1}, []int{a})
 			for b := 0; b < na; b += 7 {
 				vf15RunOne(run, []int{t1}, []int{a, b})
+			}
+		}
+		// before a sink exists: one token x every argument through both entry points, two tokens x every first argument
+		if vf15Toks[t1].width != 1000000 {
+			vf15RunEarly(run, []int{t1}, nil, true)
+			for a := 0; a < na; a++ {
+				vf15RunEarly(run, []int{t1}, []int{a}, true)
+				vf15RunEarly(run, []int{t1}, []int{a}, false)
+			}
+			for t2 := 0; t2 < nt; t2++ {
+				if vf15Toks[t2].width == 1000000 {
+					continue
+				}
+				for a := 0; a < na; a++ {
+					vf15RunEarly(run, []int{t1, t2}, []int{a, 35}, (a+t2)%2 == 0)
+				}
 			}
 		}
 		// two tokens: full product of tokens x first argument x a 3-value second argument
@@ -397,6 +469,6 @@ func TestVerifC15(t *testing.T) {
 		}
 		run.Count("allocation_batch_cases", int64(len(batch)))
 	}
-	run.Finish(true, fmt.Sprintf("format = 1-2 tokens (full product) and 3 tokens (third token free, boundary arguments) over %d tokens {literal, %%%%, %%d/%%x/%%o/%%s with width {absent,0,1,5,31,32,33,1000}, %%t, %%1000000s} x %d argument values (every built-in integer type at 0, +-1, min, max; strings/byte slices of length 0..40; bool; float, nil, struct, uint as wrong types) incl. too-short and too-long argument lists; every format string of length <=%d over 9 bytes with 0-2 arguments (no panic); allocation counter over a %s batch", nt, na, maxLen, "pre-built"),
+	run.Finish(true, fmt.Sprintf("format = 1-2 tokens (full product) and 3 tokens (third token free, boundary arguments) over %d tokens {literal, %%%%, %%d/%%x/%%o/%%s with width {absent,0,1,5,31,32,33,1000}, %%t, %%1000000s} x %d argument values (every built-in integer type at 0, +-1, min, max; strings/byte slices of length 0..40; bool; float, nil, struct, uint as wrong types) incl. too-short and too-long argument lists; the 1-token x argument and 2-token x first-argument products again with no sink set (Printf / Fprintf(nil) into the early ring buffer, handed to the first sink); every format string of length <=%d over 9 bytes with 0-2 arguments (no panic); allocation counter over a %s batch", nt, na, maxLen, "pre-built"),
 		"distinct = distinct single-token outputs; every case compares byte-exact against the reference formatter through a non-storing sink")
 }
